@@ -262,8 +262,13 @@ func filterMethodCall(blockContext antlr.Tree) {
 }
 
 func buildRestApiWithParameters(ctx *parser.MethodDeclarationContext) {
-	parameterList := ctx.FormalParameters().GetChild(1).(*parser.FormalParameterListContext)
-	formalParameter := parameterList.AllFormalParameter()
+	// the parameter list is optional and may come after a receiver parameter (`Foo this`)
+	var formalParameter []parser.IFormalParameterContext
+	if parametersCtx, ok := ctx.FormalParameters().(*parser.FormalParametersContext); ok {
+		if parameterList, ok := parametersCtx.FormalParameterList().(*parser.FormalParameterListContext); ok {
+			formalParameter = parameterList.AllFormalParameter()
+		}
+	}
 	for _, param := range formalParameter {
 		paramContext := param.(*parser.FormalParameterContext)
 
